@@ -49,6 +49,11 @@ type BatchObs struct {
 	OracleOK        bool   `json:"oracle_ok"`
 	OracleAmbiguous bool   `json:"oracle_ambiguous,omitempty"` // same URL, two answers within one phase
 	OracleWhy       string `json:"oracle_why,omitempty"`
+	// restart before this batch: the in-memory aggregation as it was just before
+	// (nil in suite faults, where the file may lag behind the memory) and as
+	// State.InitializeState read it back from the state file (collisions.go)
+	PreRestart  *Final `json:"memory_before_restart,omitempty"`
+	PostRestart *Final `json:"memory_after_restart,omitempty"`
 }
 
 type StatusCount struct {
@@ -189,7 +194,10 @@ func executeUnguarded(p *Plan) ([]BatchObs, Final) {
 		bo := BatchObs{}
 		if i > 0 && p.Restart[i-1] {
 			bo.Restarted = true
+			pre := canonical(st.VerifAggregation())
 			st = openState(path)
+			post := canonical(st.VerifAggregation())
+			bo.PreRestart, bo.PostRestart = &pre, &post
 			rt.inner = buildTree(p)
 		}
 		before := st.VerifAggregation()
